@@ -306,7 +306,7 @@ def decValue {α : Type} (dc : DataCoder α) (st : DecSt α) (p : Param) : R (PV
     if p.nbits = 0 then
       if ty = .bool then R.map (fun v => (v, none)) (readTyped ty 0)
       else R.bind (R.lift (secLen st.acc)) fun d =>
-        if d * 8 < st.used then R.fail .other                      -- negative width: ValueError
+        if d * 8 < st.used then R.fail .lib     -- declared length below what was read: PyBufrKitError (fix F14; a ValueError before)
         else R.map (fun v => (v, none)) (readTyped ty (d * 8 - st.used))
     else R.map (fun v => (v, none)) (readTyped ty p.nbits)
 
